@@ -291,3 +291,169 @@ fn c17_peer_free_nowrap() {
     let f = ci.peer_free();
     assert!(f == spec_peer_free(ci.peer_buf_alloc, ci.tx_cnt, ci.peer_fwd_cnt), "C17: peer_free differs from the VirtIO credit formula");
 }
+
+// ---------------------------------------------------------------------------------------------
+// K<= bounded scenarios on the real driver: a real `VirtIOSocket` over the recording transport and a
+// HAL that captures the contents of every device-readable buffer at the moment it is shared (= what
+// the device is given on the transmit queue).  Shapes are concrete (payload of PAY bytes, RX buffers of
+// RXB bytes, queue size 8); the credit state of the connection is symbolic.
+// ---------------------------------------------------------------------------------------------
+const CAP_N: usize = 24;
+const CAP_B: usize = 48;
+const RXB: usize = 48;
+const PAY: usize = 3;
+
+pub struct Cap {
+    pub n: usize,
+    pub len: [usize; CAP_N],
+    pub dir: [u8; CAP_N],
+    pub bytes: [[u8; CAP_B]; CAP_N],
+    pub ndma: usize,
+    pub dma: [*mut u8; 8],
+}
+pub static mut CAP: Cap = Cap { n: 0, len: [0; CAP_N], dir: [0; CAP_N], bytes: [[0; CAP_B]; CAP_N], ndma: 0, dma: [core::ptr::null_mut(); 8] };
+
+/// HAL with device addresses different from driver pointers; captures shared device-readable bytes.
+pub struct VHal;
+unsafe impl Hal for VHal {
+    fn dma_alloc(pages: usize, _direction: BufferDirection, _access_platform: bool) -> (PhysAddr, NonNull<u8>) {
+        assert!(pages > 0);
+        let layout = alloc::alloc::Layout::from_size_align(pages * PAGE_SIZE, PAGE_SIZE).unwrap();
+        let p = unsafe { alloc::alloc::alloc_zeroed(layout) };
+        unsafe {
+            assert!(CAP.ndma < 8, "verif: too many dma allocations");
+            CAP.dma[CAP.ndma] = p;
+            CAP.ndma += 1;
+        }
+        (p as u64 + BOUNCE, NonNull::new(p).unwrap())
+    }
+    unsafe fn dma_dealloc(_paddr: PhysAddr, vaddr: NonNull<u8>, pages: usize, _access_platform: bool) -> i32 {
+        let layout = alloc::alloc::Layout::from_size_align(pages * PAGE_SIZE, PAGE_SIZE).unwrap();
+        unsafe { alloc::alloc::dealloc(vaddr.as_ptr(), layout) };
+        0
+    }
+    unsafe fn mmio_phys_to_virt(paddr: PhysAddr, _size: usize) -> NonNull<u8> {
+        NonNull::new(paddr as *mut u8).unwrap()
+    }
+    unsafe fn share(buffer: NonNull<[u8]>, direction: BufferDirection, _access_platform: bool) -> PhysAddr {
+        unsafe {
+            assert!(CAP.n < CAP_N, "verif: capture log overflow");
+            let i = CAP.n;
+            CAP.len[i] = buffer.len();
+            CAP.dir[i] = match direction { BufferDirection::DriverToDevice => 0, BufferDirection::DeviceToDriver => 1, BufferDirection::Both => 2 };
+            if CAP.dir[i] == 0 {
+                let l = if buffer.len() < CAP_B { buffer.len() } else { CAP_B };
+                core::ptr::copy_nonoverlapping(buffer.as_ptr() as *const u8, CAP.bytes[i].as_mut_ptr(), l);
+            }
+            CAP.n += 1;
+        }
+        buffer.as_ptr() as *mut u8 as u64 + BOUNCE
+    }
+    unsafe fn unshare(_paddr: PhysAddr, _buffer: NonNull<[u8]>, _direction: BufferDirection, _access_platform: bool) {}
+}
+
+/// a fresh driver (3 queues of 8, 8 posted receive buffers); returns it with the number of captures so far
+fn mk_socket() -> (VirtIOSocket<VHal, KTransport, RXB>, usize) {
+    log_reset();
+    unsafe { CAP.n = 0; CAP.ndma = 0; }
+    let t = KTransport::new(DeviceType::Socket);
+    let mut s = VirtIOSocket::<VHal, KTransport, RXB>::new(t).unwrap();
+    s.guest_cid = kani::any();
+    let n = unsafe { CAP.n };
+    assert!(n == QUEUE_SIZE, "C19: the receive queue is not fully posted");
+    (s, n)
+}
+
+/// the model device completes the next transmit chain in advance: used ring of the tx queue
+/// (4th dma region: rx 0/1, tx 2/3, event 4/5) gets entry {id: token 0, len 0}, idx = 1
+fn dev_precomplete_tx() {
+    unsafe {
+        assert!(CAP.ndma == 6, "verif: unexpected dma layout");
+        let u = CAP.dma[3];
+        *(u.add(4) as *mut u32) = 0;
+        *(u.add(8) as *mut u32) = 0;
+        *(u.add(2) as *mut u16) = 1;
+    }
+}
+
+fn cap_is(i: usize, want: &[u8; 44]) -> bool {
+    let mut ok = unsafe { CAP.len[i] == 44 && CAP.dir[i] == 0 };
+    let mut k = 0;
+    while k < 44 {
+        ok = ok && unsafe { CAP.bytes[i][k] } == want[k];
+        k += 1;
+    }
+    ok
+}
+
+fn expect_hdr(ci: &ConnectionInfo, cid: u64, op: u16, len: u32) -> [u8; 44] {
+    spec_hdr_bytes(&VirtioVsockHdr {
+        src_cid: U64::new(cid),
+        dst_cid: U64::new(ci.dst.cid),
+        src_port: U32::new(ci.src_port),
+        dst_port: U32::new(ci.dst.port),
+        len: U32::new(len),
+        socket_type: U16::new(1),
+        op: U16::new(op),
+        flags: U32::new(0),
+        buf_alloc: U32::new(ci.buf_alloc),
+        fwd_cnt: U32::new(ci.fwd_cnt),
+    })
+}
+
+fn same_but_tx_and_pending(a: &ConnectionInfo, b: &ConnectionInfo) -> bool {
+    a.dst == b.dst && a.src_port == b.src_port && a.peer_buf_alloc == b.peer_buf_alloc && a.peer_fwd_cnt == b.peer_fwd_cnt
+        && a.buf_alloc == b.buf_alloc && a.fwd_cnt == b.fwd_cnt
+}
+
+/// `send` of PAY bytes on the real driver with symbolic credit state.  `nowrap`: restrict to the region the
+/// current code supports (counters have not wrapped, peer did not shrink its buffer below the bytes in flight).
+fn send_scenario(nowrap: bool) {
+    let (mut s, n0) = mk_socket();
+    let mut ci = any_info();
+    if nowrap {
+        kani::assume(ci.tx_cnt >= ci.peer_fwd_cnt && ci.peer_buf_alloc >= ci.tx_cnt - ci.peer_fwd_cnt);
+        kani::assume(ci.tx_cnt <= u32::MAX - PAY as u32);
+    }
+    let before = ci.clone();
+    let free = spec_peer_free(ci.peer_buf_alloc, ci.tx_cnt, ci.peer_fwd_cnt);
+    let data: [u8; PAY] = kani::any();
+    dev_precomplete_tx();
+    let l0 = log_len();
+    let r = s.send(&data, &mut ci);
+    let n1 = unsafe { CAP.n };
+    assert!(same_but_tx_and_pending(&ci, &before), "C17: send changed credit fields it does not own");
+    if PAY as u32 <= free {
+        // enough credit: exactly one packet [header, payload]
+        assert!(r == Ok(()), "C17: send refused although the peer advertised enough space");
+        assert!(n1 == n0 + 2, "C17: a data packet is header + payload");
+        assert!(cap_is(n0, &expect_hdr(&before, s.guest_cid, 5, PAY as u32)), "C17: data packet header wrong (addressing / len / type / op / buf_alloc / fwd_cnt)");
+        let p = unsafe { &CAP.bytes[n0 + 1] };
+        assert!(unsafe { CAP.len[n0 + 1] } == PAY && p[0] == data[0] && p[1] == data[1] && p[2] == data[2], "C17: payload differs from the caller's bytes");
+        assert!(ci.tx_cnt == before.tx_cnt.wrapping_add(PAY as u32), "C17: tx_cnt not advanced by the payload length (mod 2^32)");
+        assert!(ci.has_pending_credit_request == before.has_pending_credit_request, "C17: pending flag changed by a successful send");
+        assert!(log_len() == l0 + 1 && log_at(l0) == Ev::Notify(TX_QUEUE_IDX), "C05: device not notified of the packet");
+    } else {
+        // flow control: refused, at most one credit request
+        assert!(r == Err(Error::SocketDeviceError(SocketError::InsufficientBufferSpaceInPeer)), "C17: send beyond the peer's advertised free space was not refused");
+        assert!(ci.tx_cnt == before.tx_cnt, "C17: refused send counted as sent");
+        assert!(ci.has_pending_credit_request, "C17: no credit request pending after a refusal");
+        if before.has_pending_credit_request {
+            assert!(n1 == n0, "C17: second credit request while one is pending");
+        } else {
+            assert!(n1 == n0 + 1, "C17: a refusal must issue exactly one credit request");
+            assert!(cap_is(n0, &expect_hdr(&before, s.guest_cid, 7, 0)), "C17: credit request header wrong");
+        }
+    }
+    core::mem::forget(s);
+}
+
+/// K<= bounded stand-in: queue size 8, payload 3 bytes, one send; credit state symbolic within the no-wrap region.
+#[kani::proof]
+#[kani::unwind(46)]
+fn k17_send_flow_nowrap() { send_scenario(true); }
+
+/// K<= same scenario over the FULL credit state (all 2^32 values of every counter): fails on a tree with D2.
+#[kani::proof]
+#[kani::unwind(46)]
+fn c17_d2_send_flow_anywrap() { send_scenario(false); }
